@@ -110,8 +110,8 @@ var props = map[string]*propConfig{
 	"C03": {
 		Harness: "h1", Level: "exploration",
 		Families: []family{
-			{Name: "plain", Flags: map[string]string{"family": "plain"}, Quick: 30000, Thorough: 600000},
-			{Name: "saturation", Flags: map[string]string{"family": "saturation"}, Quick: 4000, Thorough: 60000},
+			{Name: "plain", Flags: map[string]string{"family": "plain"}, Quick: 30000, Thorough: 6000000},
+			{Name: "saturation", Flags: map[string]string{"family": "saturation"}, Quick: 4000, Thorough: 600000},
 		},
 		QuickBudget: 90 * time.Second, ThoroughBudget: 25 * time.Minute, Chunk: 125,
 		Rule: "one run = one seeded execution of 2..4 threads x 1..6 counters (shared, private, same-name aliases, long names that cross pages, stack counters) with a concurrent first open, file growth and clock-driven rotation, scheduled at the granularity of single atomic operations, lock acquisitions and Counter.ptr accesses; distinct = distinct event-log hash; non-trivial = at least one context switch between live tasks",
@@ -127,7 +127,7 @@ var props = map[string]*propConfig{
 	"C04": {
 		Harness: "h1", Level: "exploration",
 		Families: []family{
-			{Name: "kills", Flags: map[string]string{"family": "kills"}, Quick: 12000, Thorough: 400000},
+			{Name: "kills", Flags: map[string]string{"family": "kills"}, Quick: 12000, Thorough: 3200000},
 		},
 		QuickBudget: 90 * time.Second, ThoroughBudget: 25 * time.Minute, Chunk: 50,
 		Rule: "one run = 2..4 simulated processes (independent counter.file objects and mappings of one shared file, 1..2 threads each) incrementing names drawn from a pool with same-name, same-bucket (colliding), page-crossing and page-end-sized names, scheduled at single-atomic-operation granularity, with 0..3 kills placed at a random step or right after the victim's k-th limit CAS / head CAS / record write / extension write / mmap; the file is strictly decoded by an independent decoder after every step; distinct = distinct event-log hash; non-trivial = at least one context switch between live tasks or a kill",
@@ -143,7 +143,7 @@ var props = map[string]*propConfig{
 	"C10": {
 		Harness: "h1", Level: "exploration",
 		Families: []family{
-			{Name: "histories", Flags: map[string]string{"family": "histories"}, Quick: 8000, Thorough: 300000},
+			{Name: "histories", Flags: map[string]string{"family": "histories"}, Quick: 8000, Thorough: 2400000},
 		},
 		QuickBudget: 90 * time.Second, ThoroughBudget: 25 * time.Minute, Chunk: 50,
 		Rule:        "one run = a history of 1..3 sessions (create / increment / close / reopen by new process objects = restart / extend), 1..3 concurrent writer processes per session, over a pool of names of 1..4096 bytes of arbitrary content (ASCII, any byte incl. NUL and newline, non-UTF-8, ditto marks), build metadata up to and beyond the 512-byte cap, optionally starting from a file written by the independent encoder (different placement policy); every intermediate snapshot is strictly decoded; the final content must equal the model and the library's Parse must agree with the independent decoder; distinct = distinct event-log hash; distinct_states counts distinct (previous limit mod 16384, name length) placement cases reached",
@@ -155,9 +155,9 @@ var props = map[string]*propConfig{
 	"C05": {
 		Harness: "h1", Level: "fault_enumeration",
 		Families: []family{
-			{Name: "call-failures", Flags: map[string]string{"family": "enum"}, Quick: 500, Thorough: 12000},
-			{Name: "corruption-at-rest", Flags: map[string]string{"family": "corruption"}, Quick: 10000, Thorough: 400000},
-			{Name: "upload-failures", Harness: "h2", Flags: map[string]string{"family": "upload"}, Quick: 240, Thorough: 10000},
+			{Name: "call-failures", Flags: map[string]string{"family": "enum"}, Quick: 500, Thorough: 96000},
+			{Name: "corruption-at-rest", Flags: map[string]string{"family": "corruption"}, Quick: 10000, Thorough: 3200000},
+			{Name: "upload-failures", Harness: "h2", Flags: map[string]string{"family": "upload"}, Quick: 240, Thorough: 80000},
 		},
 		QuickBudget: 100 * time.Second, ThoroughBudget: 14 * time.Minute, Chunk: 10,
 		Rule: "call-failures: one seeded workload (1..2 processes x 1..2 threads, first open, increments incl. page growth, optional rotation, optional deletion of files in use, directory found as a regular file) is executed fault-free to count its N file-system/mmap calls, then re-executed once per (call index, errno in ENOENT/EACCES/EROFS/ENOSPC/EIO/EMFILE/EINTR, or short write) [quick: every call with a third of the errnos plus all short writes], once per persistent state (read-only, permission denied, mmap always failing) and for a sample of pairs (thorough: all pairs when N<=60); corruption-at-rest: a valid file built by the independent encoder is damaged (random bytes, truncation classes, header length, limit, bucket heads, name lengths, next links incl. self-loops, longer cycles and cross-chain links, for plain and ditto-compressed stack names) and then opened and incremented by the library; evaluations = executions; distinct = distinct event-log hash of the last execution of each workload; non-trivial = a fault fired or the file was damaged",
@@ -173,8 +173,8 @@ var props = map[string]*propConfig{
 	"C06": {
 		Harness: "h1", Level: "exploration",
 		Families: []family{
-			{Name: "live-snapshots", Flags: map[string]string{"family": "live"}, Quick: 6000, Thorough: 150000},
-			{Name: "damaged-at-rest", Flags: map[string]string{"family": "corruption"}, Quick: 20000, Thorough: 1500000},
+			{Name: "live-snapshots", Flags: map[string]string{"family": "live"}, Quick: 6000, Thorough: 1200000},
+			{Name: "damaged-at-rest", Flags: map[string]string{"family": "corruption"}, Quick: 20000, Thorough: 12000000},
 		},
 		QuickBudget: 90 * time.Second, ThoroughBudget: 12 * time.Minute, Chunk: 50,
 		Rule:        "live-snapshots: Parse is run on the bytes of the shared counter file after every scheduler step of a multi-process history with kills (every intermediate state: reserved-unlinked records, dead records, half-grown files) and compared with the independent decoder whenever that accepts the snapshot; damaged-at-rest: Parse on structurally damaged files (see C05) must return within a loop budget, and must agree with the independent decoder when the damage left the file well-formed. Claimed only for the clauses that meet the simulated schedule and disk; totality over all byte strings (random / coverage-guided) is not decided by this family",
@@ -186,8 +186,8 @@ var props = map[string]*propConfig{
 	"C09": {
 		Harness: "h1", Level: "exploration",
 		Families: []family{
-			{Name: "counter-side", Flags: map[string]string{"family": "counter"}, Quick: 16000, Thorough: 500000},
-			{Name: "uploader-side", Harness: "h2", Flags: map[string]string{"family": "uploader"}, Quick: 8000, Thorough: 250000},
+			{Name: "counter-side", Flags: map[string]string{"family": "counter"}, Quick: 16000, Thorough: 4000000},
+			{Name: "uploader-side", Harness: "h2", Flags: map[string]string{"family": "uploader"}, Quick: 8000, Thorough: 2000000},
 		},
 		QuickBudget: 90 * time.Second, ThoroughBudget: 20 * time.Minute, Chunk: 100,
 		Rule:        "one run = a rotating process on a simulated calendar (instants 1990..2060 biased to 23:59:59 / 00:00:00, month, year and leap boundaries, and to the last 90 s of a day), week-end setting valid 0..6 / missing / empty / garbage, 1..3 phases of concurrent increments during which the clock jumps to end-1ns, end, end+1ns, hours or weeks later; the real rotate re-arms itself through the simulated AfterFunc; checked: begin/end/name of every file created against refcal, old files frozen once a rotation completed, rotation liveness after the clock stops, conservation; distinct = distinct event-log hash",
@@ -198,7 +198,7 @@ var props = map[string]*propConfig{
 	},
 	"C07": {
 		Harness: "h2", Level: "exploration",
-		Families:    []family{{Name: "concurrent-uploaders", Flags: map[string]string{"family": "plain"}, Quick: 12000, Thorough: 250000}},
+		Families:    []family{{Name: "concurrent-uploaders", Flags: map[string]string{"family": "plain"}, Quick: 12000, Thorough: 2000000}},
 		QuickBudget: 100 * time.Second, ThoroughBudget: 25 * time.Minute, Chunk: 50,
 		Rule:        "one run = a machine history of 2..4 rounds over simulated weeks: counter files of 3 programs x versions x Go versions x platforms (expired, active, empty, unreadable, near-miss names), then 1..4 concurrent real upload.Run calls in mode on or local scheduled at file-system/HTTP-call granularity with tape-permuted map order, server fates from the tape; after each round the reference aggregation is compared with local.<week>.json for every week that had no report, the call log is checked for removals before a report exists and for any mutating call on active/unreadable files, and existing reports must keep their bytes; distinct = distinct event-log hash; non-trivial = at least one context switch between live uploaders",
 		Real:        []string{"internal/upload (all of it: findWork, reports, createReport, uploadReport; instrumented)", "internal/telemetry (mode file)", "internal/config", "internal/counter.Parse (uninstrumented in this world)", "cmd/gotelemetry runOn/runLocal/runOff/runClean", "Linux tmpfs (O_EXCL, link, rename semantics are the kernel's)"},
@@ -209,8 +209,8 @@ var props = map[string]*propConfig{
 	"C08": {
 		Harness: "h2", Level: "exploration",
 		Families: []family{
-			{Name: "kills", Flags: map[string]string{"family": "kills"}, Quick: 6000, Thorough: 150000},
-			{Name: "no-kill-liveness", Flags: map[string]string{"family": "nokill"}, Quick: 6000, Thorough: 150000},
+			{Name: "kills", Flags: map[string]string{"family": "kills"}, Quick: 6000, Thorough: 1200000},
+			{Name: "no-kill-liveness", Flags: map[string]string{"family": "nokill"}, Quick: 6000, Thorough: 1200000},
 		},
 		QuickBudget: 100 * time.Second, ThoroughBudget: 13 * time.Minute, Chunk: 50,
 		Rule:        "as C07 in mode on with 2..4 concurrent uploaders per round and per-request server fates (200, 4xx, 5xx, no answer, processed-but-answer-lost, duplicate delivery); kills family: an uploader is killed after a file-system or HTTP call with probability 1/150 per marked call (nothing unwound: the lock file stays); checked over the server-side history: all accepted bodies of a week identical, no request for a week that was acknowledged and recorded as uploaded, after 5xx/no answer the receiving task leaves the report alone, after 4xx it does not mark it uploaded; no-kill family additionally: once the server answers 200, three more sequential runs deliver every sendable week, each acknowledged to a client exactly once",
@@ -221,7 +221,7 @@ var props = map[string]*propConfig{
 	},
 	"C01": {
 		Harness: "h2", Level: "exploration",
-		Families:    []family{{Name: "configs-and-x", Flags: map[string]string{"family": "plain"}, Quick: 12000, Thorough: 250000}},
+		Families:    []family{{Name: "configs-and-x", Flags: map[string]string{"family": "plain"}, Quick: 12000, Thorough: 2000000}},
 		QuickBudget: 100 * time.Second, ThoroughBudget: 25 * time.Minute, Chunk: 50,
 		Rule:        "C07's histories in mode on with tape-generated upload configs (program/version/Go-version lists, bucketed counters, stacks, rates in {0, 1, 1/2, 1/2 +- 2^-20, 3/4}, sample rate) whose version changes between rounds, local names that are exact, wrong-bucket, prefix, suffix and literal-brace near-misses of approved names, stack counters whose first line is an approved plain counter, and X forced through crypto/rand.Reader to dyadic values equal and adjacent to the rates; every request body seen by the transport is compared field by field with refreport.Filter(aggregate of the week's files, config fetched by the run that built that report, the body's X), including that nothing else is in the body or URL",
 		Real:        []string{"internal/upload (all of it: findWork, reports, createReport, uploadReport; instrumented)", "internal/telemetry (mode file)", "internal/config", "internal/counter.Parse (uninstrumented in this world)", "cmd/gotelemetry runOn/runLocal/runOff/runClean", "Linux tmpfs (O_EXCL, link, rename semantics are the kernel's)"},
@@ -231,7 +231,7 @@ var props = map[string]*propConfig{
 	},
 	"C02": {
 		Harness: "h2", Level: "exploration",
-		Families:    []family{{Name: "modes-and-calendar", Flags: map[string]string{"family": "modes"}, Quick: 12000, Thorough: 250000}},
+		Families:    []family{{Name: "modes-and-calendar", Flags: map[string]string{"family": "modes"}, Quick: 12000, Thorough: 2000000}},
 		QuickBudget: 100 * time.Second, ThoroughBudget: 25 * time.Minute, Chunk: 50,
 		Rule:        "histories in which between rounds the mode changes (SetModeAsOf with back-dated opt-in dates, arbitrary bytes in the mode file, invalid modes) and counter-file begin/end, opt-in date and run time are placed on a simulated calendar; per request: the independently parsed mode is exactly on, the week is not in the future and after the opt-in date; per uploadable report: built in mode on, week not older than 21 days, X not above a positive sample rate, all data strictly after the opt-in date; rounds in mode off: no mutating call on and no change to any counter file or report; SetModeAsOf/Mode round trip and rejection of invalid modes leaving the bytes unchanged",
 		Real:        []string{"internal/upload (all of it: findWork, reports, createReport, uploadReport; instrumented)", "internal/telemetry (mode file)", "internal/config", "internal/counter.Parse (uninstrumented in this world)", "cmd/gotelemetry runOn/runLocal/runOff/runClean", "Linux tmpfs (O_EXCL, link, rename semantics are the kernel's)"},
@@ -241,7 +241,7 @@ var props = map[string]*propConfig{
 	},
 	"C19": {
 		Harness: "h2", Level: "exploration",
-		Families:    []family{{Name: "user-commands", Flags: map[string]string{"family": "user"}, Quick: 8000, Thorough: 250000}},
+		Families:    []family{{Name: "user-commands", Flags: map[string]string{"family": "user"}, Quick: 8000, Thorough: 2000000}},
 		QuickBudget: 100 * time.Second, ThoroughBudget: 25 * time.Minute, Chunk: 50,
 		Rule:        "machine histories in which the user runs the real gotelemetry on / local / off / clean (their os.Exit paths simulated) between uploader rounds over directories populated by the simulation plus foreign files whose names match exactly, nearly (x.v1.count.bak, y.jsonx, z.v2.count, .json.swp, report.JSON) or not at all the data-file patterns, and sub-directories; after clean exactly the counter files and reports are gone and everything else hashes the same; a mode command leaves the file byte-identical when the mode is already the requested one, otherwise writes `<mode> <simulated UTC date>` which the library reads back",
 		Real:        []string{"internal/upload (all of it: findWork, reports, createReport, uploadReport; instrumented)", "internal/telemetry (mode file)", "internal/config", "internal/counter.Parse (uninstrumented in this world)", "cmd/gotelemetry runOn/runLocal/runOff/runClean", "Linux tmpfs (O_EXCL, link, rename semantics are the kernel's)"},
@@ -252,8 +252,8 @@ var props = map[string]*propConfig{
 	"C16": {
 		Harness: "h7", Level: "exploration",
 		Families: []family{
-			{Name: "decision-table", Flags: map[string]string{"family": "table"}, Quick: 8000, Thorough: 200000},
-			{Name: "token-within-24h", Flags: map[string]string{"family": "within24h"}, Quick: 8000, Thorough: 200000},
+			{Name: "decision-table", Flags: map[string]string{"family": "table"}, Quick: 8000, Thorough: 1600000},
+			{Name: "token-within-24h", Flags: map[string]string{"family": "within24h"}, Quick: 8000, Thorough: 1600000},
 		},
 		QuickBudget: 100 * time.Second, ThoroughBudget: 12 * time.Minute, Chunk: 50,
 		Rule:        "one run = 2..8 starter processes (child marker unset / 1 / 2 / junk, crash-reporting flag, upload flag) calling the real Start concurrently with mode on / local / off / missing / garbage and the upload token absent / fresh / stale (incl. exactly 24 h), interleaved at file-system-call granularity (stat token, remove, exclusive create), some starters hours apart; spawned children run the real child path (marker rewrite, counter.Open, upload.Run) and the stubbed config download spawns a descendant that calls Start again; checked at every spawn: mode not off, spawner not a telemetry child or descendant, upload flag only with a token acquired in this call and requested, otherwise crash reporting requested; mode off: no mutating call, directory unchanged; within-24h family: at most one token acquisition (none if a fresh token exists)",
@@ -264,7 +264,7 @@ var props = map[string]*propConfig{
 	},
 	"C12": {
 		Harness: "h3", Level: "exploration",
-		Families:    []family{{Name: "request-stream", Flags: map[string]string{"family": "requests"}, Quick: 8000, Thorough: 400000}},
+		Families:    []family{{Name: "request-stream", Flags: map[string]string{"family": "requests"}, Quick: 8000, Thorough: 3200000}},
 		QuickBudget: 100 * time.Second, ThoroughBudget: 20 * time.Minute, Chunk: 50,
 		Rule:        "one run = a stream of 3..14 requests to the real upload handler behind its real middleware chain and a real file-system bucket: all methods; bodies that are valid approved reports (incl. ~100 KiB ones and hostile X values), reports with exactly one field invalid (week not a date, config not semver, X = 0, one unapproved program/version/Go version/GOOS/GOARCH/counter/stack, near-miss names), arbitrary bytes, well-formed JSON of the wrong shape, truncated and oversize JSON, duplicates; delivered through a body reader with short reads, a mid-stream error or an early end; after every request the answer class and the recursive listing of the storage directory are compared with a map object store and the reference configuration semantics; clauses that depend only on a pure function of the body are claimed for the request-stream/history part only",
 		Real:        []string{"godev/cmd/telemetrygodev handleUpload + validate", "godev/internal/middleware chain (Log, Timeout, RequestSize, Recover)", "godev/internal/content error-to-status mapping", "godev/internal/storage FSBucket", "internal/config"},
@@ -274,8 +274,8 @@ var props = map[string]*propConfig{
 	"C11": {
 		Harness: "h3", Level: "exploration",
 		Families: []family{
-			{Name: "uploader-vs-server", Flags: map[string]string{"family": "server"}, Quick: 8000, Thorough: 300000},
-			{Name: "viewer", Harness: "h2", Flags: map[string]string{"family": "viewer"}, Quick: 8000, Thorough: 300000},
+			{Name: "uploader-vs-server", Flags: map[string]string{"family": "server"}, Quick: 8000, Thorough: 2400000},
+			{Name: "viewer", Harness: "h2", Flags: map[string]string{"family": "viewer"}, Quick: 8000, Thorough: 2400000},
 		},
 		QuickBudget: 100 * time.Second, ThoroughBudget: 20 * time.Minute, Chunk: 50,
 		Rule:        "one run = a generated upload configuration, 2..6 counter files (several programs, versions, Go versions, platforms incl. unlisted ones, near-miss counter and stack names), one real upload.Run whose every request is delivered by the simulated transport to the real upload handler configured with the same configuration (must answer 200); then each produced body is re-delivered six times with one field changed to a near-miss (program, version, Go version, GOOS, GOARCH, counter, stack first line): the handler must answer 4xx exactly when the reference semantics put the changed report outside the configuration",
@@ -286,7 +286,7 @@ var props = map[string]*propConfig{
 	},
 	"C13": {
 		Harness: "h4", Level: "exploration",
-		Families:    []family{{Name: "merge-and-chart", Flags: map[string]string{"family": "worker"}, Quick: 5000, Thorough: 200000}},
+		Families:    []family{{Name: "merge-and-chart", Flags: map[string]string{"family": "worker"}, Quick: 5000, Thorough: 1600000}},
 		QuickBudget: 100 * time.Second, ThoroughBudget: 20 * time.Minute, Chunk: 50,
 		Rule:        "one run = 1..4 simulated days of stored reports (0..40 per day, sizes from tiny to just under the 100 KiB upload limit so that merged lines exceed 64 KiB, repeated X across days, several programs and buckets), the real handleMerge per day (sometimes skipping one) and the real handleChart for single days and ranges, with the bucket listing order and Go's map iteration order inside group/partition permuted by the tape; each chart is computed three times under different permutations; checked: one merged record per stored object decoding to it, NumReports, every partition value against the reference count of distinct report IDs, byte-identical output, 404 and no chart object for a range containing a day never merged",
 		Real:        []string{"godev/cmd/worker handleMerge, readMergedReports, handleChart, group, charts, partition (instrumented: map iteration order)", "godev/internal/storage FSBucket", "internal/config"},
@@ -295,7 +295,7 @@ var props = map[string]*propConfig{
 	},
 	"C18": {
 		Harness: "h5", Level: "exploration",
-		Families:    []family{{Name: "store-histories", Flags: map[string]string{"family": "store"}, Quick: 8000, Thorough: 300000}},
+		Families:    []family{{Name: "store-histories", Flags: map[string]string{"family": "store"}, Quick: 8000, Thorough: 2400000}},
 		QuickBudget: 100 * time.Second, ThoroughBudget: 10 * time.Minute, Chunk: 100,
 		Rule:        "one run = a history of 4..19 write / overwrite / read / prefix-list operations on the real FSBucket against a map object store, over names of nested ordinary components and the object names the upload (week/%g-of-X.json incl. extreme floats), merge (date.json) and chart (date.json, start_end.json) services construct; names that are a path prefix of another stored name are not generated; every constructed name must resolve under the bucket directory and a sibling bucket must stay untouched",
 		Real:        []string{"godev/internal/storage FSBucket, FSObject, FSObjectIterator", "Linux tmpfs"},
